@@ -54,7 +54,9 @@ def _mutate_json(rng, v, depth=0):
         return w
     if isinstance(v, str):
         return rng.choice(["", v + v, v[:-1], v[1:], v.upper(), "é" + v, v[:7] + "é" + v[8:], "0x", "0xffffffff", "0x100000000", "-0x1", "0xzz", v + "\u0000", "1234567é9",
-                           "ab" * 40, "A" * 33, "0" * 32, "퟿" * 5, v.replace("0x", "")])
+                           "ab" * 40, "A" * 33, "0" * 32, "퟿" * 5, v.replace("0x", ""),
+                           # characters that an echoing error message has to escape: control characters, DEL, invisible and combining code points, quotes and backslashes
+                           "\u0001", "\u007f", v.replace("0x", "") + "\u001b", "\u200b" + v, "a\u0301", "\ufeff", "\"q\"\\", "\u2028", v[:3] + "\u0000" + v[3:], "\ue000"])
     if isinstance(v, (int, float)):
         return rng.choice([0, -1, 1, 2**31, 2**32 - 1, 2**32, 2**63, 2**64, 1e308, 0.5, "5", None, v + 1])
     return rng.choice([None, 0, "", [], {}])
@@ -114,7 +116,7 @@ def gen(tier, rng, scale):
                 text = rng.choice(["", "null", "[]", "42", "\"x\"", "{", "{}", "{\"jobs\":5}", "{\"jobs\":[]}", '{"memoryMap":[],"stacks":[[[0,4112]]]}',
                                    '{"jobs":[{"memoryMap":[],"stacks":[[[0,1]]]}]}', '{"memoryMap":[["a","b"]],"stacks":[[[4294967295,1]]]}'])
             if rng.chance(1, 15):
-                url = rng.choice(["/symbolicate/v4", "", "/", "/asm/v1/", "/source/v1?x", "/../etc", "é", url.upper()])
+                url = rng.choice(["/symbolicate/v4", "", "/", "/asm/v1/", "/source/v1?x", "/../etc", "é", url.upper(), url + "\u0000", url + "\u007f", "/\u200b", url + "\"\\", "/\u0001/v1"])
         cases.append({"stream": "api", "items": [url, text], "pristine": pristine})
     # (2) breakpad
     base, _ = apienv._gen_sym("fz.so", "AAAA0000BBBB1111CCCC2222DDDD33330", 1)
@@ -189,7 +191,7 @@ def _index_bytes(bin_sym, text_path):
     if rc != 0 or not outl:
         return None
     head = outl[0].split(" | ")[0]
-    kv = dict(x.split("=", 1) for x in head.split())
+    kv = dict(x.split("=", 1) for x in head.split() if "=" in x)          # (a file on which the index creator panics gives no fields: no index then)
     return None if kv.get("IDX", "ERR") == "ERR" else bytes.fromhex(kv["IDX"])
 
 
